@@ -74,3 +74,48 @@ impl Drop for Sandbox {
         force_remove(&self.base);
     }
 }
+
+/// Confine the filesystem effects of this process to a private tmpfs: the Stdfs halves run rivia's
+/// real-filesystem backend as root, and a changed rivia may resolve a path somewhere else (a
+/// `remove_all` that lands on "/" instead of the sandbox). In a private mount namespace a fresh tmpfs
+/// is mounted over /dev/shm and every other mount is remounted read-only, so nothing outside the
+/// sandbox can be written or deleted whatever the code under test does. Best effort: without
+/// CAP_SYS_ADMIN (or as a non-root worker) the process runs as before.
+pub fn isolate_filesystem() -> bool {
+    use std::ffi::CString;
+    unsafe {
+        if libc::geteuid() != 0 || !Path::new("/dev/shm").is_dir() || std::env::var("VERIF_NO_ISOLATION").is_ok() {
+            return false;
+        }
+        if libc::unshare(libc::CLONE_NEWNS) != 0 {
+            return false;
+        }
+        let root = CString::new("/").unwrap();
+        let none = CString::new("none").unwrap();
+        if libc::mount(none.as_ptr(), root.as_ptr(), std::ptr::null(), libc::MS_REC | libc::MS_PRIVATE, std::ptr::null()) != 0 {
+            return false;
+        }
+        let shm = CString::new("/dev/shm").unwrap();
+        let tmpfs = CString::new("tmpfs").unwrap();
+        let opts = CString::new("mode=1777").unwrap();
+        if libc::mount(tmpfs.as_ptr(), shm.as_ptr(), tmpfs.as_ptr(), libc::MS_NOSUID | libc::MS_NODEV, opts.as_ptr() as *const libc::c_void) != 0 {
+            return false;
+        }
+        let info = std::fs::read_to_string("/proc/self/mountinfo").unwrap_or_default();
+        let mut seen = std::collections::BTreeSet::new();
+        for line in info.lines() {
+            let mp = match line.split(' ').nth(4) {
+                Some(x) => x.replace("\\040", " "),
+                None => continue,
+            };
+            if mp == "/dev/shm" || mp.starts_with("/dev/shm/") || !seen.insert(mp.clone()) {
+                continue;
+            }
+            if let Ok(c) = CString::new(mp) {
+                // errors (e.g. mounts that refuse a read-only bind remount) are ignored: best effort
+                libc::mount(std::ptr::null(), c.as_ptr(), std::ptr::null(), libc::MS_REMOUNT | libc::MS_BIND | libc::MS_RDONLY, std::ptr::null());
+            }
+        }
+        true
+    }
+}
